@@ -5,6 +5,7 @@ package discoverychain
 
 import (
 	"fmt"
+	"sort"
 	"strings"
 	"time"
 
@@ -451,9 +452,20 @@ func (c *compiler) detectCircularReferences() error {
 }
 
 func (c *compiler) flattenAdjacentSplitterNodes() error {
+	// Visit the nodes in a fixed order. The effective weights are rounded after
+	// every inlining step, so with three or more chained splitters the result
+	// depends on which node is flattened first; ranging over the map directly
+	// made repeated compilations of the same entries disagree.
+	nodeIDs := make([]string, 0, len(c.nodes))
+	for id := range c.nodes {
+		nodeIDs = append(nodeIDs, id)
+	}
+	sort.Strings(nodeIDs)
+
 	for {
 		anyChanged := false
-		for _, node := range c.nodes {
+		for _, id := range nodeIDs {
+			node := c.nodes[id]
 			if node.Type != structs.DiscoveryGraphNodeTypeSplitter {
 				continue
 			}
